@@ -970,6 +970,21 @@ func (w *walker) instr(s *wstate, b *ssa.BasicBlock, in ssa.Instruction) {
 						s.env[in] = w.refine(s, AV{T: whole.T.Args[fa.Field]})
 						return
 					}
+					if !known {
+						// the record is assigned once, as a whole, and never written again or handed out: what was stored
+						// holds across calls
+						if sv := wholeStoredRecord(a); sv != nil {
+							if ev, have := s.env[sv]; have {
+								whole, known = ev, true
+							}
+						}
+					}
+					if known && whole.T != nil && whole.T.Op != "struct" && whole.C == nil && wholeStoredRecord(a) != nil {
+						// a local copy of a record read from elsewhere (`head := orderBy[0]`): the field of what was copied
+						ft := &Term{Op: "field", Name: fieldName(fa.X.Type(), fa.Field), Args: []*Term{whole.T}, V: in, Typ: in.Type()}
+						s.env[in] = w.refine(s, AV{T: ft})
+						return
+					}
 				}
 			}
 			var t *Term
